@@ -48,10 +48,10 @@ TIERS = {
     # StackGen_sib*: varint / string mux layers with 2 or 3 channels of different header lengths on the SAME mux, every
     # channel as the one under test, every order and kind of first use (state shared between the channels of a mux)
     "quick": dict(mc=["Stack_quick.cfg", "Stack_sib.cfg"], gen=["StackGen_quick.cfg", "StackGen_small.cfg", "StackGen_sib.cfg"],
-                  cap=300000, par=8),
+                  cap=300000, par=8, remeasure=25, rebudget=90, deadline=360),
     "thorough": dict(mc=["Stack_thorough.cfg", "Stack_sib.cfg"],
                      gen=["StackGen_thorough_d2.cfg", "StackGen_thorough_d3.cfg", "StackGen_small_d2.cfg", "StackGen_sib_d2.cfg"],
-                     cap=5300000, par=10),
+                     cap=5300000, par=10, remeasure=100, rebudget=300, deadline=1500),
 }
 
 
@@ -102,6 +102,10 @@ def run_pipeline(tier, only=None):
                     cases.append(c)
         if len(cases) < 100:
             raise core.Inconclusive("StackGen produced only %d stacks" % len(cases))
+    if not only:
+        # mix the families (plain, small-MTU, several-channels) so that an early stop has seen some of each
+        import hashlib
+        cases.sort(key=lambda c: hashlib.sha1(json.dumps(sig(c)).encode()).hexdigest())
     for i, c in enumerate(cases):
         c["id"] = i + 1
         c["sizes"] = sorted(c["sizes"])
@@ -110,9 +114,18 @@ def run_pipeline(tier, only=None):
         for c in cases:
             f.write(json.dumps(c) + "\n")
     tr = os.path.join(d, "trace.ndjson")
-    out = core.run([binp, "-in", p, "-out", tr, "-cap", str(T["cap"]), "-par", str(T["par"])], timeout=2400)
-    core.log("stackreplay: " + (out.strip().splitlines()[-1] if out.strip() else ""))
+    # bounded whatever the tree does: budget for re-measurements, stop after 12 distinct kinds of violation, deadline
+    out = core.run([binp, "-in", p, "-out", tr, "-cap", str(T["cap"]), "-par", str(T["par"]), "-remeasure", str(T["remeasure"]),
+                    "-rebudget", str(T["rebudget"]), "-deadline", str(T["deadline"]), "-maxkeys", "12"], timeout=T["deadline"] + 240)
+    last = out.strip().splitlines()[-1] if out.strip() else ""
+    core.log("stackreplay: " + last)
+    if not last.startswith("SUMMARY "):
+        raise core.Inconclusive("stackreplay did not print its summary:\n" + out[-2000:])
+    summary = json.loads(last[len("SUMMARY "):])
+    stats["replay"] = summary
     tv = core.validate_trace("StackTrace", "StackTrace.cfg", tr, nshards=1, timeout=1500)
+    if os.path.getsize(tr) == 0:
+        raise core.Inconclusive("stackreplay executed no stack (%s)" % json.dumps(summary))
     byid = {c["id"]: c for c in cases}
     events = {}
     for ln in open(tr):
@@ -174,7 +187,18 @@ def check(pid, tier, replay=None):
         with open(replay) as f:
             only = [json.load(f)["payload"]["stack"]]
     stats, violations = run_pipeline(tier, only)
-    if not replay and stats["nontrivial"] < stats["cases"] // 4:
+    rp = stats.get("replay", {})
+    incomplete = rp.get("skipped", 0) + rp.get("cut_short", 0)
+    if incomplete:
+        print("REPLAY STOPPED EARLY: %s; %d of %d stacks executed, %d cut short, %d skipped"
+              % (rp.get("stopped"), rp.get("executed", 0), rp.get("stacks", 0), rp.get("cut_short", 0), rp.get("skipped", 0)))
+    if rp.get("not_remeasured_budget"):
+        print("not re-measured: budget (%d cases; %d re-measured in %d s): they stay DRIFT"
+              % (rp["not_remeasured_budget"], rp.get("remeasured", 0), rp.get("remeasure_s", 0)))
+    if incomplete and not violations:
+        raise core.Inconclusive("the replay stage stopped early (%s) without a violation: %d stacks not executed"
+                                % (rp.get("stopped"), incomplete))
+    if not replay and not incomplete and stats["nontrivial"] < stats["cases"] // 4:
         raise core.Inconclusive("vacuous run: only %d of %d cases were delivered or refused with the MTU error"
                                 % (stats["nontrivial"], stats["cases"]))
     mine = [core.Violation(pid, key, what, core.write_replay(pid, key, payload)) for key, what, payload in violations]
@@ -189,7 +213,7 @@ def check(pid, tier, replay=None):
         samples=stats["samples"], stacks=stats["stacks"], model_checking=stats["mc"],
         states=sum(v["states"] for v in stats["mc"].values()), transitions=sum(v["transitions"] for v in stats["mc"].values()),
         traces_validated_against_impl=stats["stacks"], drift_stacks=stats["drift"], drift_kinds=stats["drift_kinds"],
-        failed_in_range=stats["failed_samples"], exhaustive=False,
+        failed_in_range=stats["failed_samples"], replay_summary=stats.get("replay", {}), exhaustive=False,
         explanation="stacks and boundary sizes are enumerated by TLC from Stack.tla; each is executed on the real layers and judged "
                     "by StackTrace.tla against the MTU() read from the real top swarm")
     core.write_evidence(pid, tier, "exploration", coverage,
